@@ -163,14 +163,15 @@ Definition ahist_last (h : list ahist) (a : addr) : meta :=
   | Some x => ah_meta x | None => [] end.
 
 (* the metadata column of the VOLUMES dataset when the query filters on metadata (resource_volumes.go:BuildDataset):
-   no window: accounts.metadata; with a window: the greatest revision of accounts_metadata dated <= PIT (no bound without a
-   PIT), '{}' when there is none.  The code does not look at ACCOUNT_METADATA_HISTORY here: with the feature DISABLED the
-   table is empty and every account carries '{}' (see C17_volumes_filter_history_off_refuted). *)
-Definition vol_meta (s : state) (w : window) (a : addr) : meta :=
+   no window: accounts.metadata; with a window and ACCOUNT_METADATA_HISTORY = SYNC: the greatest revision of accounts_metadata
+   dated <= PIT (no bound without a PIT), '{}' when there is none; with a window and the feature DISABLED: accounts.metadata
+   (left join lateral, '{}' when the account row is missing) — as aggregated balances and accounts do (the feature test was
+   added by fix f445e43 in /repo; before it the empty history table was read and every account carried '{}'). *)
+Definition vol_meta (f : features) (s : state) (w : window) (a : addr) : meta :=
   match w_pit w, w_oot w with
   | None, None => acc_meta_cur s a
-  | Some t, _ => ahist_at (s_ahist s) a t
-  | None, Some _ => ahist_last (s_ahist s) a
+  | Some t, _ => if f_acc_hist f then ahist_at (s_ahist s) a t else acc_meta_cur s a
+  | None, Some _ => if f_acc_hist f then ahist_last (s_ahist s) a else acc_meta_cur s a
   end.
 (* GetVolumesWithBalances with an optional metadata filter and a group level: dataset -> WHERE -> group *)
 Definition read_volumes_q (f : features) (s : state) (w : window) (q : option mfilter) (g : nat) : option volmap :=
@@ -178,7 +179,7 @@ Definition read_volumes_q (f : features) (s : state) (w : window) (q : option mf
   | None => None
   | Some v => Some (group_volumes g (match q with
                                      | None => v
-                                     | Some q' => filter (fun kv => msat q' (vol_meta s w (fst (fst kv)))) v
+                                     | Some q' => filter (fun kv => msat q' (vol_meta f s w (fst (fst kv)))) v
                                      end))
   end.
 
